@@ -3,7 +3,7 @@
 (* Synchronisation agreements (property C50).                              *)
 (* L0  entries as in KAccess; owner of an entry = its sync_parent_uuid;    *)
 (*     a sync request [from \in {"refresh","active","stale"}, entries :    *)
-(*     sequence of [id, kind, ext, attrs], retain : [mode, ids]]           *)
+(*     sequence of [id, sys, kind, ext, attrs], retain : [mode, ids]]      *)
 (* L1  what a successful scim_sync_apply by agreement A may have done, and *)
 (*     what a successful user modify may have done to a synchronised entry *)
 (* L2  phases 1-5 of idm/scim.rs scim_sync_apply as the code composes them *)
@@ -66,6 +66,9 @@ SyncApply(St, A, idk, hasCookie, req, KAttrs, Yld) ==
       p1 == idk = "synch" /\ (req.from = "refresh" \/ (req.from = "active" /\ hasCookie))
       \* phase 2: masked entries refuse; stubs for the missing ids through the internal identity
       p2 == \A x \in existing : ~Hidden(St[x])
+      \* phase 2 refuses to create a stub whose id lies in the reserved system range (the stubs are created
+      \* through the internal identity, which would be allowed to use that range)
+      p2c == \A i \in DOMAIN req.entries : req.entries[i].id \in created => ~req.entries[i].sys
       \* phases 2+3: every existing entry must assert sync_parent_uuid = A
       p3a == \A x \in existing : A \in Owner(St[x])
       \* phase 3: classes must be sync classes, attributes sync-owned (not yielded)
@@ -86,6 +89,6 @@ SyncApply(St, A, idk, hasCookie, req, KAttrs, Yld) ==
       del4 == CASE req.retain.mode = "retain" -> left \ req.retain.ids
                 [] req.retain.mode = "delete" -> delc
                 [] OTHER -> {}
-      ok == p1 /\ p2 /\ p2b /\ p3a /\ p3b /\ p3c /\ pref /\ p4
+      ok == p1 /\ p2 /\ p2c /\ p2b /\ p3a /\ p3b /\ p3c /\ pref /\ p4
   IN  [ok |-> ok, created |-> created, deleted |-> cleanup \cup del4]
 =============================================================================
